@@ -125,4 +125,43 @@ def BVS.remaining (b : BVS) : GenSt → List (List Nat)
   | .atTail => []
   | .done => []
 
+/-! ## what the translator reports about the classes, and what the machine relies on -/
+
+/-- structural facts read from `direct/data/samplers.py` (Gen/C13) -/
+structure IterTables where
+  iterWrites : List String        -- attributes of `self` written / advanced in `BatchVolumeSampler.__iter__`
+  iterReads : List String         -- attributes of `self` read there
+  otherWrites : List String       -- … written by any other method except `__init__`
+  initIterators : List String     -- attributes bound to one-shot iterators (or advanced) in `__init__`
+  rebuilds : Bool                 -- `end_of_volume = iter(self.end_of_volume); next_value = next(end_of_volume, None)`
+  lenIsCount : Bool               -- `__len__` returns the count of `__init__`
+  seqIterPlain : Bool             -- `DistributedSequentialSampler.__iter__` = `iter(self.indices)`
+  seqWrites : List String         -- attributes written by its methods other than `__init__`
+
+/-- the attributes the object state `BVS` carries: `self.batch_size`, `self.end_of_volume`, `self.sampler` -/
+def modelledAttrs : List String := ["batch_size", "end_of_volume", "sampler"]
+
+/-- **`__iter__` reads no state of `self` that `__iter__`/`__next__`/any method writes, and every attribute it
+reads is a plain (re-iterable) value carried by the model's object** — the reason why `Machine.step` returns the
+object unchanged and why a fresh generator depends on the object only. -/
+def IterTables.wf (t : IterTables) : Bool :=
+  t.iterWrites.isEmpty && t.otherWrites.isEmpty && t.initIterators.isEmpty && t.seqWrites.isEmpty &&
+    t.iterReads.all (fun a => modelledAttrs.contains a) && t.rebuilds && t.lenIsCount && t.seqIterPlain
+
+/-- `DistributedSequentialSampler.__init__`: limit first, then `chunks`, then this rank's chunk (`rankVols`) -/
+def expectedSeqInitOrder : List String :=
+  ["limit: filenames=filenames[:limit_number_of_volumes] if limit_number_of_volumes",
+   "chunk: chunked_filenames<-chunks(filenames, self.num_replicas)",
+   "select: filenames=chunked_filenames[self.rank]"]
+
+/-- `DistributedSampler.__init__`: without an explicit seed every process takes the *shared* seed (rank 0's, through
+`all_gather`) — the rank streams are strided views of one stream (`distStream`) only if all ranks seed alike —;
+rank and world size come from `communication` -/
+def expectedDistInit : List String :=
+  ["if seed is None",
+   "  seed=communication.shared_random_seed()",
+   "self._seed=int(seed)",
+   "self._rank=communication.get_rank()",
+   "self._world_size=communication.get_world_size()"]
+
 end DirectVerif.Sampler
